@@ -266,6 +266,8 @@ INTRIN["_mm256_store_si256"] = ("Avx2.store", "Mv")
 INTRIN["__builtin_ia32_pblendd256"] = ("Avx2.blend_epi32", "vvc")
 INTRIN["__builtin_ia32_permti256"] = ("Avx2.permute2f128", "vvc")
 INTRIN["__builtin_ia32_vperm2f128_si256"] = ("Avx2.permute2f128", "vvc")
+INTRIN["__builtin_ia32_vec_ext_v4di"] = ("Avx2.extract_epi64", "vc")      # _mm256_extract_epi64 (a macro)
+INTRIN_ELEMENT = {"__builtin_ia32_vec_ext_v4di"}     # intrinsics whose `long long` result is one 64-bit element (a bit pattern)
 
 for _n in ("add_epi64", "sub_epi64", "and_si512", "mul_epu32", "unpacklo_pd", "unpackhi_pd",
            "cmpgt_epu64_mask", "cmpge_epu64_mask", "xor_si512"):
@@ -289,6 +291,7 @@ INTRIN["_mm512_broadcast_i64x4"] = ("Avx512.broadcast_i64x4", "v")
 for _n in ("cmplt_epu64_mask", "cmple_epu64_mask", "cmpeq_epu64_mask", "cmpneq_epu64_mask"):
     INTRIN["_mm512_" + _n] = ("Avx512." + _n, "vv")
 INTRIN["_mm512_mask_blend_epi32"] = ("Avx512.mask_blend_epi32", "vvv")
+INTRIN["_mm512_mask_mov_epi32"] = ("Avx512.mask_mov_epi32", "vvv")
 INTRIN["_mm512_permutex2var_epi64"] = ("Avx512.permutex2var_epi64", "vvv")
 INTRIN["_mm512_loadu_si512"] = ("Avx512.load", "m")
 INTRIN["_mm512_load_si512"] = ("Avx512.load", "m")
@@ -598,6 +601,15 @@ class FnCtx:
                     return v
                 if src[0] == "u64" and dst[0] == "int" and dst[1] in ("long long", "long", "int64_t"):
                     return v      # same-width reinterpretation; the value stays a 64-bit pattern
+                if dst[0] == "u64" and src[0] == "int" and src[1] in ("long long", "long", "int64_t"):
+                    # element-extracting intrinsics of the table (`_mm256_extract_epi64`) return `long long`; their
+                    # model value is the 64-bit pattern itself, so the conversion to uint64_t is the identity
+                    c0 = self.skip(inner)
+                    while c0.get("kind") in ("ParenExpr", "CStyleCastExpr", "ImplicitCastExpr") and c0.get("inner") and \
+                            (c0.get("kind") == "ParenExpr" or c0.get("castKind") == "NoOp"):
+                        c0 = self.skip(c0["inner"][0])
+                    if c0.get("kind") == "CallExpr" and self.callee(c0).get("name") in INTRIN_ELEMENT:
+                        return v
                 raise Unsupported(n, "integral cast %s -> %s of non-constant" % (qt(inner), qt(n)))
             if ck in ("NoOp", "BitCast", "LValueToRValue", "ArrayToPointerDecay", "DerivedToBase"):
                 return self.ex(inner)
